@@ -68,6 +68,16 @@ struct closure_guard {
     ~closure_guard() { if (j) j->closure_dead.fetch_add(1, std::memory_order_relaxed); }
 };
 
+// copy-only capture (a "move" of the closure copies it): every instance that is ever made must be destroyed again - also the
+// moved-from shells the pool's function wrapper leaves behind when it relocates a closure
+struct copy_ticket {
+    static inline std::atomic<long> live{0};
+    copy_ticket() { live.fetch_add(1, std::memory_order_relaxed); }
+    copy_ticket(const copy_ticket &) { live.fetch_add(1, std::memory_order_relaxed); }
+    copy_ticket &operator=(const copy_ticket &) = default;
+    ~copy_ticket() { live.fetch_sub(1, std::memory_order_relaxed); }
+};
+
 inline cocls::async<void> pj_await_pool(pool_round &X, pool_job &j) {
     try {
         co_await *X.pool;
@@ -140,7 +150,7 @@ inline void pool_submit(pool_round &X, pool_job &j) {
         case 2: submit(std::array<char, 40>{}); break;
         case 3: submit(std::array<char, 200>{}); break;
         default:
-            P.run_detached([&X, &j, g = closure_guard(&j)]() {
+            P.run_detached([&X, &j, g = closure_guard(&j), t = copy_ticket()]() {
                 if (!is_current(*X.pool)) j.off_worker.fetch_add(1, std::memory_order_relaxed);
                 for (int i = 0; i < j.busy; i++) vf::cpu_relax();
                 j.ran.fetch_add(1, std::memory_order_relaxed);
@@ -165,7 +175,7 @@ inline void pool_mt(const vf::opts &o, vf::report &R, vf::team &T, uint64_t roun
     for (uint64_t rn = 0; rn < rounds && R.nviol() < 6; rn++) {
         uint64_t rseed = master.next();
         vf::rng r(rseed);
-        long live0 = tracked::live.load();
+        long live0 = tracked::live.load(), tickets0 = copy_ticket::live.load();
         auto Xp = std::make_unique<pool_round>();
         pool_round &X = *Xp;
         int nworkers = 1 + (int)r.below(3);
@@ -297,6 +307,7 @@ inline void pool_mt(const vf::opts &o, vf::report &R, vf::team &T, uint64_t roun
         }
         for (int s = 0; s < X.nsub; s++) for (int i = 0; i < X.njobs[s]; i++) X.jobs[s][i].fut.reset();
         if (tracked::live.load() != live0) { R.violation("monitor:payload_balance|pool_mt", "coroutine arguments of a pool job leaked or were destroyed twice", witness()); (void)Xp.release(); continue; }
+        if (copy_ticket::live.load() != tickets0) { R.violation("monitor:closure_balance|pool_mt", "instances of a job closure (copies made while it travelled through the pool) were not all destroyed: " + std::to_string(copy_ticket::live.load() - tickets0) + " left", witness()); (void)Xp.release(); continue; }
         bool nontrivial = X.stop_mode != PS_STOP_NONE;
         if (nontrivial) R.nontrivial_cases++;
         std::string sig = desc + " r" + std::to_string(nran) + "c" + std::to_string(ncancel);
